@@ -418,8 +418,7 @@ impl<'a> Interpreter<'a> {
 
                             match callable {
                                 RsCallable::Function(func) => {
-                                    let arg_values = self.resolve_args(args)?;
-                                    stack.push_val(func(value, arg_values));
+                                    stack.push_val(self.call_with_args(args, |a| func(value, a))?);
                                 }
                                 RsCallable::Macro(macro_) => {
                                     stack.push_val(self.call_macro(&value, &args, macro_)?);
@@ -436,8 +435,9 @@ impl<'a> Interpreter<'a> {
                             match value {
                                 CelValue::Ident(func_name) => {
                                     if let Some(func) = self.get_func_by_name(&func_name) {
-                                        let arg_values = self.resolve_args(args)?;
-                                        stack.push_val(func(CelValue::from_null(), arg_values));
+                                        stack.push_val(self.call_with_args(args, |a| {
+                                            func(CelValue::from_null(), a)
+                                        })?);
                                     } else if let Some(macro_) = self.get_macro_by_name(&func_name)
                                     {
                                         stack.push_val(self.call_macro(
@@ -448,8 +448,9 @@ impl<'a> Interpreter<'a> {
                                     } else if let Some(CelValue::Type(type_name)) =
                                         self.get_type_by_name(&func_name)
                                     {
-                                        let arg_values = self.resolve_args(args)?;
-                                        stack.push_val(construct_type(type_name, arg_values));
+                                        stack.push_val(self.call_with_args(args, |a| {
+                                            construct_type(type_name, a)
+                                        })?);
                                     } else if self.is_compile_time() {
                                         // May be bound at run time, stop constant folding
                                         return Err(CelError::binding(&func_name));
@@ -460,8 +461,9 @@ impl<'a> Interpreter<'a> {
                                     }
                                 }
                                 CelValue::Type(type_name) => {
-                                    let arg_values = self.resolve_args(args)?;
-                                    stack.push_val(construct_type(&type_name, arg_values));
+                                    stack.push_val(
+                                        self.call_with_args(args, |a| construct_type(&type_name, a))?,
+                                    );
                                 }
                                 other => stack.push_val(
                                     CelValue::from_err(CelError::runtime(&format!(
@@ -531,6 +533,21 @@ impl<'a> Interpreter<'a> {
         }
         let res = macro_(self, this.clone(), &v);
         Ok(res)
+    }
+
+    /// Evaluates the arguments and applies `f` to them. At run time a failing argument is
+    /// the result of the call, like a failing operand of an operator; while constant
+    /// folding the evaluation is abandoned, the argument may depend on a name that is
+    /// only bound at run time.
+    fn call_with_args<F>(&self, args: Vec<CelValue>, f: F) -> CelResult<CelValue>
+    where
+        F: FnOnce(Vec<CelValue>) -> CelValue,
+    {
+        match self.resolve_args(args) {
+            Ok(arg_values) => Ok(f(arg_values)),
+            Err(err) if self.is_compile_time() => Err(err),
+            Err(err) => Ok(CelValue::from_err(err)),
+        }
     }
 
     fn resolve_args(&self, args: Vec<CelValue>) -> Result<Vec<CelValue>, CelError> {
